@@ -930,6 +930,32 @@ class Evaluator:
                             if isinstance(v, Agg) and v.var in ("Ok", "Some"):
                                 self.bind(st["pat"], v.fields.get("0"), env)
                                 continue
+                    if inn["k"] == "Match" and self._has_return(tb, ii):
+                        # `let x = match e { A => v, _ => return r };` — a decided arm that returns leaves the function
+                        try:
+                            sv = self.eval(tb, inn["scrut"], env, depth)
+                            done_ = False
+                            for a_ in inn["arms"]:
+                                arm_ = tb.arms[a_]
+                                c_, b_ = self.pat_cond(arm_["pat"], sv, env)
+                                env2_ = dict(env)
+                                env2_.update(b_)
+                                if arm_.get("guard") is not None:
+                                    c_ = self.logic("and", c_, self.as_cond(self.eval(tb, arm_["guard"], env2_, depth)))
+                                if isinstance(c_, Cond) and c_.op == "false":
+                                    continue
+                                if isinstance(c_, Cond) and c_.op == "true":
+                                    bi_, bn_ = tb.e(arm_["body"])
+                                    if bn_["k"] == "Return":
+                                        return self.eval(tb, bn_["e"], env2_, depth) if bn_.get("e") is not None else Sym("unit")
+                                    if not self._has_return(tb, bi_):
+                                        self.bind(st["pat"], self.eval(tb, arm_["body"], env2_, depth), env)
+                                        done_ = True
+                                break
+                            if done_:
+                                continue
+                        except Unsupported:
+                            pass
                     v = self.eval(tb, st["init"], env, depth)
                     self.bind(st["pat"], v, env)
                 continue
